@@ -1,6 +1,7 @@
 package main
 
 import (
+	"encoding/json"
 	"flag"
 	"fmt"
 	"os"
@@ -52,4 +53,19 @@ func main() {
 		fmt.Fprintln(os.Stderr, "harness error:", err)
 		os.Exit(3)
 	}
+}
+
+// loadReplayCase reads the "case" member of a replay file written by the driver into v.
+func loadReplayCase(path string, v interface{}) error {
+	bs, err := os.ReadFile(path)
+	if err != nil {
+		return err
+	}
+	var rp struct {
+		Case json.RawMessage `json:"case"`
+	}
+	if err := json.Unmarshal(bs, &rp); err != nil {
+		return err
+	}
+	return json.Unmarshal(rp.Case, v)
 }
